@@ -910,3 +910,114 @@ func (e *E1) CallSites(names ...string) []ssa.Instruction {
 	}
 	return out
 }
+
+// FailStop records, for a guard G that is tested inside the function (possibly
+// inside a loop over all elements): every branch whose one edge is a pass edge
+// of G has an opposite edge from which no success return is reachable without
+// passing G (a failed check ends in failure). At least min such branches must
+// exist. This is the "holds for every element" form of guard dominance: the
+// loop may run zero times, but an element that fails the check fails the
+// function.
+func (e *E1) FailStop(rule, what string, min int, g Guard) {
+	fname := FuncName(e.Fn)
+	construct := fname + ":" + what + ":" + g.Name
+	succ := e.SuccessReturns()
+	n := 0
+	for _, b := range e.Fn.Blocks {
+		if len(b.Succs) != 2 || b.Succs[0] == b.Succs[1] {
+			continue
+		}
+		for i := range b.Succs {
+			lits, feas := edgeLits(b, i, nil)
+			if !feas {
+				continue
+			}
+			pass := false
+			for _, l := range lits {
+				if g.Match(l) {
+					pass = true
+				}
+			}
+			if !pass {
+				continue
+			}
+			n++
+			other := b.Succs[1-i]
+			// reachability from the failing successor, not crossing pass edges of g
+			start := other.Instrs[0]
+			ws := e.unguardedFromBlock(other, succ, []Guard{g})
+			if len(ws) > 0 {
+				e.C.Fail(rule, construct, sinkPos(start), fmt.Sprintf(
+					"the failing branch of %s at %s can still reach the success return at %s",
+					g.Name, e.C.Prog.Pos(sinkPos(b.Instrs[len(b.Instrs)-1])),
+					e.C.Prog.Pos(sinkPos(ws[0].Sink))))
+				return
+			}
+		}
+	}
+	if n < min {
+		e.C.Fail(rule, construct, e.Fn.Pos(), fmt.Sprintf(
+			"found %d checked occurrence(s) of %s, required %d", n, g.Name, min))
+		return
+	}
+	e.C.OK(rule, construct, e.Fn.Pos(), fmt.Sprintf(
+		"%d checked occurrence(s); every failing branch ends in failure", n))
+}
+
+// unguardedFromBlock is Unguarded starting at the first instruction of blk.
+func (e *E1) unguardedFromBlock(blk *ssa.BasicBlock, sinks []ssa.Instruction, guards []Guard) []Witness {
+	type state struct{ pred, blk *ssa.BasicBlock }
+	sinkIn := map[*ssa.BasicBlock][]ssa.Instruction{}
+	for _, s := range sinks {
+		sinkIn[s.Block()] = append(sinkIn[s.Block()], s)
+	}
+	visited := map[state]bool{}
+	queue := []state{{nil, blk}}
+	visited[queue[0]] = true
+	var out []Witness
+	for len(queue) > 0 {
+		st := queue[0]
+		queue = queue[1:]
+		e.C.Paths++
+		for _, s := range sinkIn[st.blk] {
+			del := false
+			if ret, ok := s.(*ssa.Return); ok && len(ret.Results) > 0 {
+				rv := ret.Results[len(ret.Results)-1]
+				for _, g := range guards {
+					if g.Delegates != nil && g.Delegates(rv) {
+						del = true
+					}
+				}
+			}
+			if !del {
+				out = append(out, Witness{Sink: s})
+			}
+		}
+		for i, succ := range st.blk.Succs {
+			lits, feasible := edgeLits(st.blk, i, st.pred)
+			if !feasible {
+				continue
+			}
+			if len(st.blk.Succs) == 2 && st.blk.Succs[0] == st.blk.Succs[1] {
+				lits = nil
+			}
+			pass := false
+			for _, l := range lits {
+				for _, g := range guards {
+					if g.Match(l) {
+						pass = true
+					}
+				}
+			}
+			if pass {
+				continue
+			}
+			ns := state{st.blk, succ}
+			if !visited[ns] {
+				visited[ns] = true
+				queue = append(queue, ns)
+			}
+		}
+	}
+	return out
+}
